@@ -19,6 +19,24 @@ Check (relativize_same_path_query : forall b n p i q,
   positions_of b = Some p -> i = firstn (path_end p) b ++ c_qm :: q ->
   relativize b n i <> Ret None).
 
+(* same path, no query on the IRI (the base may have one): the last path segment is emitted, unless
+   that segment is "." or ".." or the base has an authority and an empty path -- in those two
+   situations no path/query/fragment reference resolves to the IRI, see ex_no_reference_* below *)
+Check (relativize_same_path_noquery : forall b n p i f,
+  positions_of b = Some p -> i = firstn (path_end p) b ++ f ->
+  (f = [] \/ hd_is (N.eqb c_hash) f = true) ->
+  is_dot_seg (last_seg (ox_path b p)) = false ->
+  (scheme_end p < authority_end p -> ox_path b p <> []) ->
+  relativize b n i <> Ret None).
+(* no slice off a character boundary: for well-formed UTF-8 inputs the result is never a panic,
+   although the longest common BYTE prefix may end inside a character (ex_lcp_mid_char) *)
+Check (relativize_no_panic : forall b n i,
+  utf8_ok b = true -> utf8_ok i = true -> relativize b n i <> Panic).
+Check (relativize_same_path_query_some : forall b n p i q,
+  utf8_ok b = true -> utf8_ok i = true ->
+  positions_of b = Some p -> i = firstn (path_end p) b ++ c_qm :: q ->
+  exists r, relativize b n i = Ret (Some r)).
+
 (* (3) the resolver model is a total function; with an authority in the base it never reports an
        error unless the reference starts with ':' *)
 Check (resolve : str -> str -> option str).
@@ -60,7 +78,25 @@ Example ex_lcp_mid_char : lcp [104; 116; 116; 112; 58; 47; 47; 97; 47; 195; 169]
   /\ is_char_boundary [104; 116; 116; 112; 58; 47; 47; 97; 47; 195; 168]%N 10 = false.
 Proof. split; reflexivity. Qed.
 
+Example ex_utf8_ok : utf8_ok [104; 116; 116; 112; 58; 47; 47; 97; 47; 195; 168]%N = true /\ utf8_ok [47; 195]%N = false /\ utf8_ok [168; 47]%N = false.
+Proof. repeat split; reflexivity. Qed.
+(* http://a/b/..?q -> http://a/b/.. : nothing is returned (any path reference would lose the "..") *)
+Example ex_no_reference_dot :
+  relativize [104; 116; 116; 112; 58; 47; 47; 97; 47; 98; 47; 46; 46; 63; 113]%N 2 [104; 116; 116; 112; 58; 47; 47; 97; 47; 98; 47; 46; 46]%N = Ret None.
+Proof. vm_compute. reflexivity. Qed.
+(* http://a?q -> http://a : nothing is returned (every path reference resolves to a path starting with '/') *)
+Example ex_no_reference_empty_path :
+  relativize [104; 116; 116; 112; 58; 47; 47; 97; 63; 113]%N 2 [104; 116; 116; 112; 58; 47; 47; 97]%N = Ret None.
+Proof. vm_compute. reflexivity. Qed.
+(* http://a/b?q -> http://a/b : "b" *)
+Example ex_last_segment :
+  relativize [104; 116; 116; 112; 58; 47; 47; 97; 47; 98; 63; 113]%N 0 [104; 116; 116; 112; 58; 47; 47; 97; 47; 98]%N = Ret (Some [98]%N).
+Proof. vm_compute. reflexivity. Qed.
+
 Print Assumptions relativize_sound.
+Print Assumptions relativize_same_path_noquery.
+Print Assumptions relativize_no_panic.
+Print Assumptions relativize_same_path_query_some.
 Print Assumptions relativize_same_document.
 Print Assumptions relativize_same_path_query.
 Print Assumptions resolve_defined.
